@@ -366,15 +366,16 @@ def generate(rng, tier, seed):
     # dependencies through collection / bundle paths and through dynamic children: collection sources, copies and mirrors over
     # the ten shapes, keyed maps, switches, reductions, references to sets / dictionaries (compiled-edge and scan-order oracles)
     from .gen_coll import gen_coll_case
-    from .c10 import gen_case10
+    from .c10 import gen_case10, gen_nested_map_case
     from .c11 import gen_case11
     from .c12 import gen_case12
     from .c13 import gen_coll_ref
     for k in range(n // 4):
         nm = f"c01_{seed}_s{k}"
-        r = k % 5
+        r = k % 6
         c = (gen_coll_case(rng, nm, probes=True, copies=2) if r == 0 else gen_case10(rng, nm, k) if r == 1 else
-             gen_case11(rng, nm, k) if r == 2 else gen_case12(rng, nm, k) if r == 3 else gen_coll_ref(rng, nm))
+             gen_case11(rng, nm, k) if r == 2 else gen_case12(rng, nm, k) if r == 3 else gen_coll_ref(rng, nm) if r == 4 else
+             gen_nested_map_case(rng, nm))        # r == 5: a map_ with a pass_through argument produced by a chain of nodes
         c.meta["structural"] = 1
         cases.append(c)
     for k in range(n // 5):
